@@ -69,6 +69,7 @@ def run(ctx):
                     jobs.append({"mode": "udp", "p": pp, "acts": acts})
                 if budget == 0:
                     jobs.append({"mode": "tcp", "p": pp, "acts": []})
+                    jobs.append({"mode": "tcpconc", "p": pp, "acts": []})       # three exchanges at the same time
                     nscen += 1
                     # directed: the fault-free schedule with the n-th message towards the server (n = 1, 2) duplicated
                     # and both copies handed to the layer at the same time; extra deliveries drain what that adds
@@ -119,17 +120,31 @@ def run(ctx):
     ctx.add("transitions", gen)
     ctx.add("traces_validated_against_impl", len(traces))
     ctx.cov["scenarios"] = nscen
-    ctx.cov["schedules_by_mode"] = {m: sum(1 for j in jobs if j["mode"] == m) for m in ("layer", "layerc", "udp", "tcp")}
-    ctx.cov["messages_relayed"] = sum(len(t["msgs"]) for t in traces)
-    ctx.cov["completed_exchanges"] = sum(1 for t in traces if t["ret"] == "ok" and t["retcode"] in (68, 69))
-    ctx.cov["exchanges_ending_in_error_or_timeout"] = sum(1 for t in traces if not (t["ret"] == "ok" and t["retcode"] in (68, 69)))
+    ctx.cov["schedules_by_mode"] = {m: sum(1 for j in jobs if j["mode"] == m) for m in ("layer", "layerc", "udp", "tcp", "tcpconc")}
+    single = [t for t in traces if t["op"] != "conc"]
+    ctx.cov["messages_relayed"] = sum(len(t["msgs"]) for t in single)
+    ctx.cov["completed_exchanges"] = sum(1 for t in single if t["ret"] == "ok" and t["retcode"] in (68, 69))
+    ctx.cov["exchanges_ending_in_error_or_timeout"] = sum(1 for t in single if not (t["ret"] == "ok" and t["retcode"] in (68, 69)))
+    ctx.cov["concurrent_exchanges_completed"] = sum(1 for t in traces if t["op"] == "conc" for x in t["x"] if x["ret"] == "ok")
     obs = []
     for clause, idxs in sorted(bad.items()):
         ts = [traces[i] for i in idxs]
+        if clause == "K04_ConcCompletes":
+            ctx.drift.append({"clause": clause, "traces": len(ts), "example_params": ts[0]["p"], "example": [[x["ret"], x["uplen"]] for x in ts[0]["x"]]})
+            continue
         if clause.startswith("K04_"):
             t0 = min(ts, key=lambda t: len(t["msgs"]))
             (obs if clause == "K04_Completes" else ctx.drift).append({"clause": clause, "traces": len(ts), "of_which_fault_free": sum(1 for t in ts if not t["faulty"]), "example_params": t0["p"], "example_acts": [[a["a"], a["d"], a["k"]] for a in t0["acts"]][:12]})
             continue
+        conc = [t for t in ts if t["op"] == "conc"]
+        if conc:
+            t0 = min(conc, key=lambda t: t["p"]["l"] + t["p"]["l2"])
+            vf.report(ctx, clause, {"mode": "tcp-concurrent", "direction": "up" if t0["p"]["l"] > 0 else "down"},
+                      "%d run(s) of %d concurrent exchanges violate the clause; e.g. L=%d L2=%d szx %d/%d -> %s" % (
+                          len(conc), t0["n"], t0["p"]["l"], t0["p"]["l2"], t0["p"]["cs"], t0["p"]["ss"],
+                          json.dumps([[x["ret"], x["retcode"], [[d["len"], d["pieces"][:3]] for d in x["app"]], [[d["len"], d["pieces"][:3]] for d in x["got"]]] for x in t0["x"]])[:900]),
+                      {"trace": t0, "cmd": "bin/check C04 --tier %s" % ctx.tier})
+        ts = [t for t in ts if t["op"] != "conc"]
         groups = {}
         for t in ts:
             mode = ("layer" + ("-concurrent-dup" if t.get("concurrent") else "")) if t["op"] == "layer" else t["transport"]
@@ -147,7 +162,7 @@ def run(ctx):
         ctx.cov["observations"] = obs
 
     def mutate(t, rng):
-        if t["app"] and t["app"][0]["len"] > 1 and t["p"]["l"] > 1:
+        if t["op"] != "conc" and t["app"] and t["app"][0]["len"] > 1 and t["p"]["l"] > 1:
             app = [dict(d) for d in t["app"]]
             ps = [list(x) for x in app[0]["pieces"]]
             ps[-1][2] -= 1
